@@ -329,8 +329,10 @@ func runC18(c *Ctx) {
 				if len(out.Bytes()) != len(p.Expect) {
 					bad = fmt.Sprintf("console output has %d bytes, want %d", out.Len(), len(p.Expect))
 				}
-			case nl != p.Warns:
-				bad = fmt.Sprintf("%d warning lines, want %d (only non-console port traffic warns)", nl, p.Warns)
+			case (p.Warns == 0 && nl != 0) || nl < p.Warns:
+				// the text (and number of lines) of a warning is free: at least one line per
+				// non-console port access, none at all when there is only console traffic
+				bad = fmt.Sprintf("%d warning lines for %d non-console port accesses (only those warn, and each does)", nl, p.Warns)
 			}
 			var l9, l2, lu, lpc int64
 			for _, cl := range p.Calls {
@@ -443,7 +445,7 @@ func runC18(c *Ctx) {
 				bad = "cmd/zexdoc exited with an error: " + err.Error() + " " + se.String()
 			case !bytes.Equal(so.Bytes(), p.Expect):
 				bad = fmt.Sprintf("stdout of cmd/zexdoc differs from the console bytes the program asked for (%d vs %d bytes)", so.Len(), len(p.Expect))
-			case strings.Count(se.String(), "\n") != p.Warns:
+			case (p.Warns == 0 && strings.Count(se.String(), "\n") != 0) || strings.Count(se.String(), "\n") < p.Warns:
 				bad = fmt.Sprintf("stderr of cmd/zexdoc has %d lines, want %d warnings", strings.Count(se.String(), "\n"), p.Warns)
 			}
 			if bad != "" {
